@@ -156,12 +156,16 @@ theorem scanSeg_noraw (lines : List Sliced) (h : NoRaw lines) :
       · rw [ho]; exact Or.inr ⟨_, rfl⟩
 
 /-- with no raw-line requests the loop of `generate_pes_packet` is one `insert_sliced_data_units` call -/
+theorem segStart_zero : segStart 0 = 0 := by unfold segStart; split <;> rfl
+
+theorem segStart_le (l : Nat) : segStart l ≤ l := by unfold segStart; split <;> omega
+
 theorem genLoop_noraw (mask : Nat) (fixed : Bool) (fuel pLeft : Nat) (lines : List Sliced) (h : NoRaw lines)
     (out : Bytes) (lastDu : Nat)
     (hg : genLoop mask fixed (fuel + 1) pLeft 0 lines = .ok (out, lastDu, [])) :
     (insertSliced mask fixed pLeft 0 0 lines).err = none ∧ (insertSliced mask fixed pLeft 0 0 lines).rest = []
     ∧ out = (insertSliced mask fixed pLeft 0 0 lines).out ∧ lastDu = (insertSliced mask fixed pLeft 0 0 lines).lastDu := by
-  rw [genLoop] at hg
+  rw [genLoop, segStart_zero] at hg
   rcases scanSeg_noraw lines h 0 with ⟨off, hs⟩ | ⟨ll', hs⟩
   · rw [hs] at hg; simp at hg
   · rw [hs] at hg
